@@ -70,15 +70,19 @@ let budget = ref (try float_of_string (Sys.getenv "VERIF_JUDGE_BUDGET") with _ -
 let timeouts = ref 0
 let armed = ref false
 let () = Sys.set_signal Sys.sigalrm (Sys.Signal_handle (fun _ -> if !armed then begin armed := false; raise Timeout end))
+let depth = ref 0
 let timed (f : unit -> 'a) (dflt : 'a) : 'a =
-  let stop () = armed := false; ignore (Unix.setitimer Unix.ITIMER_REAL { Unix.it_interval = 0.0; it_value = 0.0 }) in
-  try
-    armed := true;
-    ignore (Unix.setitimer Unix.ITIMER_REAL { Unix.it_interval = 0.0; it_value = !budget });
-    let r = f () in stop (); r
-  with Timeout -> stop (); incr timeouts; Gc.compact (); dflt
-     | Stack_overflow | Out_of_memory -> stop (); incr timeouts; Gc.compact (); dflt
-     | e -> stop (); raise e
+  (* re-entrant: a nested call runs under the budget of the outermost one (it must not disarm it) *)
+  if !depth > 0 then f () else begin
+    let stop () = armed := false; depth := 0; ignore (Unix.setitimer Unix.ITIMER_REAL { Unix.it_interval = 0.0; it_value = 0.0 }) in
+    try
+      depth := 1; armed := true;
+      ignore (Unix.setitimer Unix.ITIMER_REAL { Unix.it_interval = 0.0; it_value = !budget });
+      let r = f () in stop (); r
+    with Timeout -> stop (); incr timeouts; Gc.compact (); dflt
+       | Stack_overflow | Out_of_memory -> stop (); incr timeouts; Gc.compact (); dflt
+       | e -> stop (); raise e
+  end
 
 
 (* ---- the reference semantics of one operation ---- *)
